@@ -296,6 +296,17 @@ func compileOnce(root string, pkgs []string) map[string]string {
 		}
 	}
 	if len(failed) == 0 {
+		// the errors belong to a package outside pkgs: a dependency that was already
+		// found broken. Whoever imports it cannot be built either: find them one by one.
+		for _, p := range pkgs {
+			c := exec.Command("go", "build", "-tags", "verif", p)
+			c.Dir = root
+			if ob, e := c.CombinedOutput(); e != nil {
+				failed[p] = "depends on a generated package that does not compile:\n" + tail(string(ob), 1500)
+			}
+		}
+	}
+	if len(failed) == 0 {
 		fmt.Fprintf(os.Stderr, "HARNESS: go build failed but no package identified:\n%s\n", outb)
 		os.Exit(2)
 	}
